@@ -27,6 +27,7 @@ NUMS = [0, 1, 2, 10, 255, 10 ** 15, 10 ** 16, 123456789012345, Decimal("0.1"), D
         # integers a double cannot hold: the stored literal is the integer (decimal128 coefficient), the double beside it only approximates it
         2 ** 53 + 1, 12345678901234567, 2 ** 62 + 1, 999999999999999999,
         # doubles that need 16 or 17 significant digits to be named (the literal is the stored double, not a rounded one)
+        Decimal("2.0"), Decimal("10.0"), Decimal("255.00"), Decimal("1.0"), Decimal("0.50"),
         Decimal("3.141592653589793"), Decimal("2.718281828459045"), Decimal("0.30000000000000004"), Decimal("0.7000000000000001"), Decimal("1234567.8901234567")]
 STRS = ["", "a", 'a"b', '""', "x,y", "(z)", "1+1", "it's", "{", "é😀", " sp ", "a;b", "}", "=", "A1", "TRUE", "line\nbreak", "%"]
 
@@ -147,10 +148,12 @@ def ser(t, host, out, T):
     k = t[0]
     if k == "num":
         v = t[1]
-        if v == v.to_integral_value() and abs(v) < 2 ** 63:
+        v = Decimal(v)
+        if v == v.to_integral_value() and abs(v) < 2 ** 63 and v.as_tuple().exponent >= 0:
             out.append(N(AST_node_type=T.NUMBER_NODE, AST_number_node_number=float(v), AST_number_node_decimal_low=int(v), AST_number_node_decimal_high=INTHI))
         else:
-            sign, digits, exp = v.normalize().as_tuple()
+            # a literal typed with trailing zeros ("2.0", "255.00") keeps them: coefficient 20 with exponent -1, not the integer 2
+            sign, digits, exp = (v if v.as_tuple().exponent < 0 and v == v.to_integral_value() else v.normalize()).as_tuple()
             coeff = int("".join(map(str, digits)))
             out.append(N(AST_node_type=T.NUMBER_NODE, AST_number_node_number=float(v), AST_number_node_decimal_low=coeff & (2 ** 64 - 1),
                          AST_number_node_decimal_high=((0x1820 + exp) << 49) | (coeff >> 64)))
